@@ -175,6 +175,10 @@ def _parse_open_file(file_obj, parse_options=None):
     headers = [''] * len(headers)
 
   rows = rows[data_offset:]
+  # The headers were guessed from a sample of the rows: make room for wider rows further down, so
+  # that no cell is silently dropped (columns that turn out to be empty are removed below).
+  max_row_len = max(len(row) for row in rows) if rows else 0
+  headers.extend([''] * (max_row_len - len(headers)))
   num_rows = parse_options.get('NUM_ROWS', 0)
   table_data_with_types = parse_data.get_table_data(rows, len(headers), num_rows)
 
